@@ -73,9 +73,45 @@ def gen_poll_at_upgrade_end(rng, tier, i):
     return plan
 
 
+def gen_rival_handshakes(rng, tier, i):
+    """Either server: a second socket runs a handshake for the session
+    while the client's own is under way.  Half of the time both are made to
+    fail (a wrong frame after the probe answer), in either order: the
+    session must then be back on polling with everything deliverable."""
+    from . import c06
+    plan = c06.gen_rival_handshake(rng, tier, i)
+    plan['snapshots'] = []
+    if rng.random() < 0.5:
+        for s in plan['sessions']:
+            ups = s.get('upgrades') or []
+            rivals = [r for r in s.get('raw', []) if r.get('script')]
+            if not ups or not rivals:
+                continue
+            ups[0]['steps'] = [['send', '2probe'], ['wait_frame'],
+                               ['delay', rng.choice([1, 2, 4, 8, 16])],
+                               ['send', rng.choice(['6', '4oops', '2probe'])],
+                               ['delay', 4]]
+            rivals[0]['script'] = [
+                ['send', '2probe'], ['wait_frame'],
+                ['delay', rng.choice([0, 1, 2, 4, 8, 16])],
+                ['send', rng.choice(['6', '4oops', '2probe'])]]
+            rivals[0]['hold'] = rng.choice([8, 64])
+            # (the third socket of the base workload would succeed: a poll
+            # is what shows whether the session is readable again)
+            for r in s['raw']:
+                if r is not rivals[0] and r.get('script'):
+                    r.pop('script')
+                    r.pop('ws', None)
+                    r['query'] = 'transport=polling&EIO=4&c={c}&sid={sid}'
+    return plan
+
+
 def gen(rng, tier, i):
-    if rng.random() < 0.06:
+    r = rng.random()
+    if r < 0.06:
         return gen_poll_at_upgrade_end(rng, tier, i)
+    if r < 0.14:
+        return gen_rival_handshakes(rng, tier, i)
     return _gen_general(rng, tier, i)
 
 
